@@ -37,6 +37,7 @@ type Node struct {
 	FailReadAt  int  // >0: Read fails with EIO after this many bytes
 	// owner names as the source machine's user database resolves UID/GID (may be empty)
 	User, Group string
+	FailClose   bool // closing the file after reading it reports an I/O error
 	FailReaddir bool
 	// ReaddirCut > 0: listing the directory returns the first ReaddirCut-1
 	// names together with an error (getdents failing part-way)
@@ -234,6 +235,11 @@ func (f *file) MakeReadable() error {
 		return pathError("open", f.path, syscall.EACCES)
 	}
 	if f.n.Morph != nil {
+		if f.n.Morph.Mode&os.ModeSymlink != 0 {
+			// the entry was replaced by a symlink after the lstat: opening with O_NOFOLLOW fails
+			simCount("fs-became-symlink")
+			return pathError("open", f.path, syscall.ELOOP)
+		}
 		simCount("fs-type-changed")
 		f.n = f.n.Morph
 	}
@@ -241,7 +247,13 @@ func (f *file) MakeReadable() error {
 	return nil
 }
 
-func (f *file) Close() error { return nil }
+func (f *file) Close() error {
+	if f.n.FailClose && !f.meta {
+		simCount("fs-close-fail")
+		return pathError("close", f.path, syscall.EIO)
+	}
+	return nil
+}
 
 func (f *file) Stat() (*fs.ExtendedFileInfo, error) { return f.fs.info(f.n), nil }
 
